@@ -8,6 +8,7 @@ import Driver.C14
 import Driver.C10
 import Driver.C12
 import Driver.C20
+import Driver.C19
 open Lean Driver
 
 def dispatch (j : Json) : R Json := do
@@ -24,6 +25,7 @@ def dispatch (j : Json) : R Json := do
   | "C10" => Driver.C10.handle op j
   | "C12" => Driver.C12.handle op j
   | "C20" => Driver.C20.handle op j
+  | "C19" => Driver.C19.handle op j
   | _ => throw s!"unknown property {p}"
 
 partial def loop (h : IO.FS.Stream) (out : IO.FS.Stream) : IO Unit := do
